@@ -143,9 +143,79 @@ def _viol_key(v):
     return (v.get("clause"), v.get("cls"))
 
 
+_COV = {"on": False, "lines": set(), "prefix": None}
+
+
+def _cov_start():
+    """Cheap line coverage of skmatter through sys.monitoring (each line reports once)."""
+    import skmatter
+
+    mon = sys.monitoring
+    _COV["prefix"] = os.path.dirname(os.path.realpath(skmatter.__file__)) + os.sep
+    try:
+        mon.use_tool_id(mon.COVERAGE_ID, "hostsim")
+    except ValueError:
+        return False
+    pre = _COV["prefix"]
+    lines = _COV["lines"]
+
+    def on_line(code, line):
+        fn = code.co_filename
+        if fn.startswith(pre):
+            lines.add((fn[len(pre):], line))
+        return mon.DISABLE
+
+    mon.register_callback(mon.COVERAGE_ID, mon.events.LINE, on_line)
+    mon.set_events(mon.COVERAGE_ID, mon.events.LINE)
+    _COV["on"] = True
+    return True
+
+
+def _cov_stop():
+    if not _COV["on"]:
+        return []
+    mon = sys.monitoring
+    mon.set_events(mon.COVERAGE_ID, 0)
+    mon.register_callback(mon.COVERAGE_ID, mon.events.LINE, None)
+    mon.free_tool_id(mon.COVERAGE_ID)
+    _COV["on"] = False
+    out = sorted(_COV["lines"])
+    _COV["lines"] = set()
+    return out
+
+
+def executable_lines(prefix, files):
+    """Executable line numbers per file (from compiled code objects)."""
+    out = {}
+    for f in files:
+        path = os.path.join(prefix, f)
+        try:
+            code = compile(open(path).read(), path, "exec")
+        except Exception:  # noqa: BLE001
+            continue
+        lines = set()
+        stack = [code]
+        while stack:
+            c = stack.pop()
+            for _, _, ln in c.co_lines():
+                if ln is not None:
+                    lines.add(ln)
+            for k in c.co_consts:
+                if hasattr(k, "co_lines"):
+                    stack.append(k)
+        out[f] = lines
+    return out
+
+
 def _exec_trace(args):
     scenario, trace = args
-    return scenario.execute(trace)
+    cov = trace.get("meta", {}).get("coverage")
+    if cov:
+        _cov_start()
+    res = scenario.execute(trace)
+    if cov:
+        res["cov_lines"] = _cov_stop()
+    return res
 
 
 def _do_run(scenario, seed, tier, idx, faults, timeout):
@@ -158,6 +228,7 @@ def _do_run(scenario, seed, tier, idx, faults, timeout):
         "run_index": idx,
         "faults": bool(faults),
         "run_seed": rseed,
+        "coverage": bool(idx % 4 == 0),
     }
     status, res = run_isolated(_exec_trace, (scenario, trace), timeout)
     out = {"idx": idx, "faults": faults, "status": status}
@@ -178,6 +249,7 @@ def run_slice(args):
     os.environ["HOSTSIM_TMP"] = tmpbase
     known = load_known()
     outs = []
+    cov = set()
     for idx, faults in items:
         o = _do_run(scenario, seed, tier, idx, faults, timeout)
         if o["status"] == "ok" and o["result"]["violations"]:
@@ -187,7 +259,11 @@ def run_slice(args):
                     o["minimised"] = minimise(scenario, o["trace"], unk[0], timeout, known=known)
                 except Exception:  # noqa: BLE001
                     o["minimise_error"] = traceback.format_exc()
+        if o["status"] == "ok" and "cov_lines" in o["result"]:
+            cov.update(map(tuple, o["result"].pop("cov_lines")))
         outs.append(o)
+    if outs:
+        outs[0]["cov_union"] = sorted(cov)
     return outs
 
 
@@ -368,6 +444,25 @@ def main(scenario, argv=None):
     sys.exit(rc)
 
 
+def _coverage_report(scenario, cov):
+    """Executed / executable lines of the files the property anchors (measured with
+    sys.monitoring on every 4th run)."""
+    import skmatter
+
+    prefix = os.path.dirname(os.path.realpath(skmatter.__file__))
+    files = scenario.anchor_files() if hasattr(scenario, "anchor_files") else []
+    ex = executable_lines(prefix, files)
+    hit = {}
+    for f, ln in cov:
+        hit.setdefault(f, set()).add(ln)
+    out = {}
+    for f in files:
+        tot = ex.get(f, set())
+        h = hit.get(f, set()) & tot
+        out[f] = {"executed": len(h), "executable": len(tot), "percent": round(100.0 * len(h) / max(1, len(tot)), 1)}
+    return out
+
+
 def report(scenario, seed, tier, results, wall, skipped, harness_errors, args):
     pid = scenario.pid
     known = load_known()
@@ -385,7 +480,9 @@ def report(scenario, seed, tier, results, wall, skipped, harness_errors, args):
     extra = Counter()
     digests = []
     replay_dir = os.path.join(VERIF, "replays", pid)
+    cov = set()
     for o in results:
+        cov.update(map(tuple, o.pop("cov_union", [])))
         if o["status"] != "ok":
             harness_errors.append(f"run {o['idx']} faults={o['faults']}: {o['status']}: {o['error']}")
             os.makedirs(replay_dir, exist_ok=True)
@@ -471,6 +568,7 @@ def report(scenario, seed, tier, results, wall, skipped, harness_errors, args):
             "real_components": scenario.real_components(),
             "stub_components": scenario.stub_components(),
             "harness_errors": len(harness_errors),
+            "anchored_source_line_coverage": _coverage_report(scenario, cov),
             "exhaustive": False,
         },
         "assumptions": scenario.assumptions(),
